@@ -16,6 +16,8 @@ import (
 	"encoding/json"
 	"fmt"
 	"math"
+	"os"
+	"os/exec"
 	"sort"
 	"strconv"
 	"strings"
@@ -1100,7 +1102,7 @@ func firstDifferenceClass(want, got map[string]*qtable) string {
 // ---- running one scenario -----------------------------------------------------------------------
 
 type e2eRunner struct {
-	c    *hx.Ctx
+	c    sink
 	e    *e2eEnv
 	uniq int
 }
@@ -1301,6 +1303,12 @@ func (x *e2eRunner) run(s *scenario, reopen, reopenFirst bool) error {
 	}
 	names := s.names()
 	head := "st=" + strings.Join(statuses, ",")
+	if len(x.e.panics) > 0 {
+		ln := c.Emit(s.op(), "err "+x.e.panics[0])
+		c.Violation(ln, "unexplained:panic_in_write_path", x.e.panics[0]+"; requests "+s.short())
+		x.e.panics = nil
+		return nil
+	}
 	stage := func(op, label string) {
 		txt, tables, err := x.dump(names, "application/json", "ns")
 		if err == errKeysCollide {
@@ -1369,23 +1377,162 @@ func (s *scenario) hasCR() bool {
 var _ = utf8.RuneError
 
 // runE2E: n scenarios on one shard; every 25th scenario is followed by a reopen.
+// sink: where the runner reports (the harness context, or the child's record file).
+type sink interface {
+	Emit(op, implAnswer string) int
+	Violation(line int, class, desc string)
+	Count(bucket string)
+	Case(key string, nontrivial bool)
+}
+
+// runE2E runs the end-to-end scenarios in a child process (the same binary, mode e2e-child):
+// the storage engine works in goroutines of its own, a panic there cannot be recovered and would
+// end the run without a failing input. The child appends one record per report to a file; the
+// parent replays the records into the harness context and, when the child died, reports the
+// scenario that was running with the panic's first lines.
 func runE2E(c *hx.Ctx, r *hx.Rng, n int) error {
-	dir := c.Out + "/c06-e2e-shard"
+	if n <= 0 {
+		return nil
+	}
+	seed := r.U64()
+	if c.Arg("e2e-inprocess", "") != "" {
+		return runE2EScenarios(c, c.Out+"/c06-e2e-shard", hx.NewRng(seed), n, c.Arg("e2eonly", "0"), nil)
+	}
+	childOut := c.Out + "/c06-e2e-child"
+	if err := os.MkdirAll(childOut, 0o755); err != nil {
+		return err
+	}
+	recFile := childOut + "/records.txt"
+	logFile, err := os.Create(childOut + "/log.txt")
+	if err != nil {
+		return err
+	}
+	cmd := exec.Command(os.Args[0], "C06", "-seed", strconv.FormatUint(c.Seed, 10), "-tier", c.Tier, "-n", strconv.Itoa(n), "-out", childOut,
+		"-D", "mode=e2e-child", "-D", "e2eseed="+strconv.FormatUint(seed, 10), "-D", "records="+recFile, "-D", "e2eonly="+c.Arg("e2eonly", "0"))
+	cmd.Stdout, cmd.Stderr = logFile, logFile
+	runErr := cmd.Run()
+	logFile.Close()
+	// replay the child's records
+	data, _ := os.ReadFile(recFile)
+	base := 0
+	lastChildLine, lastParentLine := 0, 0
+	running := ""
+	for _, rec := range strings.Split(string(data), "\n") {
+		f := strings.Split(rec, "\t")
+		switch f[0] {
+		case "B": // a scenario begins
+			if len(f) == 2 {
+				running = f[1]
+			}
+		case "D":
+			running = ""
+		case "E":
+			if len(f) == 4 {
+				ln := c.Emit(f[2], f[3])
+				lastChildLine, _ = strconv.Atoi(f[1])
+				lastParentLine = ln
+				base = lastParentLine - lastChildLine
+			}
+		case "V":
+			if len(f) == 4 {
+				ln, _ := strconv.Atoi(f[1])
+				c.Violation(ln+base, f[2], f[3])
+			}
+		case "C":
+			if len(f) == 2 {
+				c.Count(f[1])
+			}
+		case "K":
+			if len(f) == 3 {
+				c.Case(f[1], f[2] == "1")
+			}
+		}
+	}
+	if runErr != nil {
+		logTail := ""
+		if b, err := os.ReadFile(childOut + "/log.txt"); err == nil {
+			txt := string(b)
+			if i := strings.LastIndex(txt, "panic:"); i >= 0 {
+				txt = txt[i:]
+			} else if len(txt) > 1500 {
+				txt = txt[len(txt)-1500:]
+			}
+			if len(txt) > 1500 {
+				txt = txt[:1500]
+			}
+			logTail = strings.ReplaceAll(strings.ReplaceAll(txt, "\n", " | "), "\t", " ")
+		}
+		if running == "" {
+			return fmt.Errorf("the end-to-end child process failed outside a scenario: %v: %s", runErr, logTail)
+		}
+		s, perr := parseE2EOp(running)
+		desc := "the process died while this scenario was written, flushed or queried: " + logTail
+		if perr == nil {
+			desc += "; requests " + s.short()
+		}
+		ln := c.Emit(running, "err crash")
+		c.Violation(ln, "unexplained:crash_in_storage", desc)
+	}
+	return nil
+}
+
+// fileSink: the child's side of the record file (unbuffered: a record is on disk when the call returns).
+type fileSink struct {
+	f     *os.File
+	lines int
+}
+
+func clean(s string) string {
+	return strings.ReplaceAll(strings.ReplaceAll(s, "\n", " "), "\t", " ")
+}
+func (k *fileSink) Emit(op, ans string) int {
+	k.lines++
+	fmt.Fprintf(k.f, "E\t%d\t%s\t%s\n", k.lines, clean(op), clean(ans))
+	return k.lines
+}
+func (k *fileSink) Violation(line int, class, desc string) {
+	fmt.Fprintf(k.f, "V\t%d\t%s\t%s\n", line, clean(class), clean(desc))
+}
+func (k *fileSink) Count(b string) { fmt.Fprintf(k.f, "C\t%s\n", clean(b)) }
+func (k *fileSink) Case(key string, nt bool) {
+	fmt.Fprintf(k.f, "K\t%s\t%d\n", clean(key), b2i(nt))
+}
+
+func runE2EChild(c *hx.Ctx) error {
+	f, err := os.Create(c.Arg("records", c.Out+"/records.txt"))
+	if err != nil {
+		return err
+	}
+	defer f.Close()
+	seed, _ := strconv.ParseUint(c.Arg("e2eseed", "1"), 10, 64)
+	k := &fileSink{f: f}
+	return runE2EScenarios(k, c.Out+"/c06-e2e-shard", hx.NewRng(seed), c.Budget(400, 10000), c.Arg("e2eonly", "0"), f)
+}
+
+// runE2EScenarios: n scenarios on one shard; every 25th is followed by a reopen, another one is
+// restarted before the harness flushed anything.
+func runE2EScenarios(c sink, dir string, r *hx.Rng, n int, onlyArg string, marks *os.File) error {
 	e, err := newE2E(dir)
 	if err != nil {
 		return err
 	}
 	defer e.close()
 	x := &e2eRunner{c: c, e: e}
-	only, _ := strconv.Atoi(c.Arg("e2eonly", "0"))
+	only, _ := strconv.Atoi(onlyArg)
 	for i := 0; i < n; i++ {
 		x.uniq++
 		s := genScenario(r.Fork(), x.uniq)
 		if only > 0 && x.uniq != only {
 			continue
 		}
+		if marks != nil {
+			fmt.Fprintf(marks, "B\t%s\n", s.op())
+		}
 		if err := x.run(s, i%25 == 24 || only > 0, i%25 == 12); err != nil {
 			return err
+		}
+		if marks != nil {
+			fmt.Fprintf(marks, "D\n")
 		}
 	}
 	return nil
